@@ -348,6 +348,9 @@ func checkC12(c *Ctx) {
 func checkC15(c *Ctx) {
 	p := c.P
 	checkC15PKPlaceholder(c)
+	// First/Take/Last arm the not-found error on the statement; every derivation of that statement (a scope that opens a
+	// session, WithContext) must carry the flag (same rule as C06.clone, restricted to the flag)
+	checkC06Clone(c, c.Rule("C15.clone-flag", "Statement.clone carries RaiseErrorOnNotFound (a scope deriving a session keeps the armed not-found error)", 1), map[string]bool{"RaiseErrorOnNotFound": true})
 	// the ORDER BY a finisher adds (primary key asc/desc, batch order) lives in a merged clause: merging must not write into
 	// the backing array of the chain it was derived from (same rule as C06.merge-alias)
 	checkC06MergeAlias(c, c.Rule("C15.clause-merge", "MergeClause never appends onto / stores into a slice shared with the chain the finisher was derived from (ORDER BY, LIMIT, WHERE added by First/Last/FindInBatches stay per chain)", 16))
@@ -814,6 +817,7 @@ func checkC20(c *Ctx) {
 	checkC20CreateAgree(c)
 	checkC20DDLTable(c)
 	checkC20AddExec(c)
+	checkC20FKFlag(c)
 
 	// ---- C20.guarded-add ----
 	rg := c.Rule("C20.guarded-add", "every additive DDL call in AutoMigrate is conditional on absence (and MigrateColumn on presence)", 6)
